@@ -319,5 +319,25 @@ RULE_ADDENDA["C07"] = "follow-ups include a second leaked handle and appending t
 RULE_ADDENDA["C05"] += "; growth of the vector between two steps of a live typed drain/splice handle (native, ASan, valgrind)"
 RULE_ADDENDA["C08"] = RULE_ADDENDA.get("C08", "") 
 RULE_ADDENDA["C17"] = "a release with another layout than the allocation (alloc-layout) counts as a symptom"
+def _add(p, t):
+    RULE_ADDENDA[p] = (RULE_ADDENDA[p] + "; " if RULE_ADDENDA.get(p) else "") + t
+_META = "getters (element_layout/typeid/drop/clone, len, capacity) through clone_empty / clone_empty_in hops across all backends for 15 element layouts incl. alignments 16-64"
+for _p in ("C04", "C08", "C12", "C18"):
+    _add(_p, _META)
+_OVER = "Stack<SIZE> with element alignments 16/32/64 driven through bytes only: capacity() elements stay inside the vector object, read back intact, survive a move of the vector"
+for _p in ("C01", "C11", "C12", "C19"):
+    _add(_p, _OVER)
+_USER = "value sources include a user-implemented typed value whose move_into trusts the byte count, lazy clones of it, handles and lazy clones through the *_unchecked entry points, LazyClone::new; the *_unchecked getters and downcasts"
+for _p in ("C01", "C03", "C05", "C09", "C11", "C13", "C18", "C19"):
+    _add(_p, _USER)
+_add("C04", "Clone::clone_from between element types; swap between values of different runtime types (element/wrapper/raw/handle pairings)")
+_add("C19", "swap between values of different runtime types on the inline backends")
+_add("C05", "a growable user backend whose fresh storage already has room for two elements")
+_add("C08", "a growable user backend whose fresh storage already has room for two elements")
+_add("C06", "a replacement iterator announcing usize::MAX/2 items (either ending admitted, the vector must stay valid and usable)")
+_add("C17", "a stateful builder (identity, destructor) through raw parts; hand-built parts of an Empty prototype re-targeted to Heap")
+_add("C18", "hand-built raw parts with capacity 0 and arbitrary dangling handles (a release of a never-allocated address is recorded)")
+_add("C16", "class owner: borrows derived from owning handles (downcast_ref/mut, as_bytes, lazy_clone, LazyClone::new) must not survive the handle's drop, consumption, move or scope")
+_add("C15", "typed and erased range iterators and typed views over backends whose builder or Mem is !Send / !Sync")
 for _p, _t in RULE_ADDENDA.items():
     CHECKS[_p]["rule"] += "; " + _t
